@@ -248,7 +248,7 @@ def spiral_fermat(x_motor, y_motor, x_start, y_start, x_range, y_range, dr, fact
         x = radius * np.cos(angle)
         y = radius * np.sin(angle) * dr_aspect
 
-        if (abs(x - (y / dr_aspect) / tilt_tan) <= half_x) and (abs(y) <= half_y):
+        if (abs(x - (y / dr_aspect) / tilt_tan) <= half_x) and (abs(y / dr_aspect) <= half_y):
             x_points.append(x_start + x)
             y_points.append(y_start + y)
 
